@@ -29,6 +29,27 @@ def Registered(m, pname, value):
     return pname in m.writeDict and same_value(m.writeDict[pname], value)
 
 
+def UnitsOf(m):
+    """the units the module describes, per parameter, in document order of the datainfo"""
+    def walk(d, out):
+        if isinstance(d, dict):
+            if 'unit' in d:
+                out.append(d['unit'])
+            for k in sorted(d):
+                if k != 'unit':
+                    walk(d[k], out)
+        elif isinstance(d, (list, tuple)):
+            for x in d:
+                walk(x, out)
+        return out
+    return {p: walk(pobj.datatype.export_datatype(), []) for p, pobj in m.parameters.items()}
+
+
+def UnitsAsConfigured(m, expect_units):
+    got = UnitsOf(m)
+    return all(got[p] == u for p, u in expect_units.items())
+
+
 CONTRACTS = [
     dict(key='Parameter.hasDatatype', file=None, func=None, signature='self', serves=[], trusted=True, requires=[],
          pure=dict(args=['self'], reads=[]), ensures={'bool': 'is_bool(result)'}, raises='never'),
@@ -61,7 +82,11 @@ CONTRACTS = [
          requires=[],
          ensures={'valid_config': 'not expect_reject',
                   'start_values': 'all(getattr(self, p) == v for p, v in expect_values.items())',
-                  'overrides': 'all(getattr(self.parameters[p].datatype, prop) == v for (p, prop), v in expect_props.items())'},
+                  'overrides': 'all(getattr(self.parameters[p].datatype, prop) == v for (p, prop), v in expect_props.items())',
+                  # the main unit configured for THIS instance shows in every $-unit of its description, and creating this instance
+                  # left the descriptions of the instances created before as they were
+                  'main_unit': 'UnitsAsConfigured(self, expect_units)',
+                  'earlier_instances': 'all(UnitsAsConfigured(m, u) for m, u in earlier)'},
          # (an unknown property name surfaces as ProgrammingError; the node collects either kind and refuses to start)
          raises={'cls': 'issubclass(exc, ConfigError) or issubclass(exc, ProgrammingError)', 'invalid_config': 'expect_reject'}),
     dict(key='formatException', file=None, func=None, packed_args=True, serves=[], trusted=True, requires=[],
